@@ -290,6 +290,32 @@ Proof.
   unfold parse. cbv beta iota delta [parser_table parse_scalar parse_timestamp to_c08]. unfold cast_timestamp. rewrite native_datetime. reflexivity.
 Qed.
 
+(* round 7: zone-aware values - the zone is part of the value and survives the cast; casting twice is
+   casting once; the DATE of it is its calendar date; an ARRAY<TIMESTAMP> of such values is the list of them *)
+Lemma timestamp_aware k y m d h mi s us off :
+  parse' T_TIMESTAMP k (PAware y m d h mi s us off) = ROk (PAware y m d h mi s 0 off) /\
+  parse' T_TIMESTAMP k (PAware y m d h mi s 0 off) = ROk (PAware y m d h mi s 0 off) /\
+  parse' T_DATE k (PAware y m d h mi s us off) = ROk (PDate y m d) /\
+  PAware y m d h mi s 0 off <> PDatetime y m d h mi s 0.
+Proof.
+  unfold parse. cbv beta iota delta [parser_table parse_scalar parse_timestamp parse_date to_c08]. unfold cast_timestamp, cast_date.
+  rewrite !native_datetime. repeat split; try reflexivity. discriminate.
+Qed.
+
+Lemma timestamp_zone_kept k x r :
+  parse' T_TIMESTAMP k x = ROk r ->
+  match x, r with
+  | PAware _ _ _ _ _ _ _ off, PAware _ _ _ _ _ _ _ off' => off' = off
+  | PAware _ _ _ _ _ _ _ _, _ => False
+  | _, PAware _ _ _ _ _ _ _ _ => False
+  | _, _ => True
+  end.
+Proof.
+  unfold parse. destruct x; try (intros H; injection H as <-; exact I);
+    cbv beta iota delta [parser_table parse_scalar parse_timestamp]; intros H;
+    apply rbind_ok in H; destruct H as ([[[[[[y' m'] d'] h'] mi'] s'] us'] & _ & H); injection H as <-; cbn [keep_zone]; auto.
+Qed.
+
 Lemma date_roundtrip k y m d : valid_date y m d = true ->
   py_str' (PDate y m d) = ROk (render_date y m d) /\
   parse' T_DATE k (PStr (render_date y m d)) = ROk (PDate y m d) /\
@@ -440,7 +466,7 @@ Proof.
   - now apply class_boolean in H.
   - unfold parse_bytes in H. apply rbind_ok in H. destruct H as (v & _ & H). now injection H as <-.
   - unfold parse_date in H. apply rbind_ok in H. destruct H as ([[y m] d] & _ & H). now injection H as <-.
-  - unfold parse_timestamp in H. apply rbind_ok in H. destruct H as ([[[[[[y m] d] h] mi] s] us] & _ & H). now injection H as <-.
+  - unfold parse_timestamp in H. apply rbind_ok in H. destruct H as ([[[[[[y m] d] h] mi] s] us] & _ & H). injection H as <-. now destruct x.
   - discriminate.
   - discriminate.
   - unfold parse_decimal in H. apply rbind_ok in H. destruct H as (t & _ & H).
